@@ -10,6 +10,7 @@ import (
 	"github.com/jcmturner/gokrb5/v8/client"
 	"github.com/jcmturner/gokrb5/v8/config"
 	"github.com/jcmturner/gokrb5/v8/keytab"
+	"github.com/jcmturner/gokrb5/v8/krberror"
 	"github.com/jcmturner/gokrb5/v8/messages"
 
 	"verif/props/pcommon"
@@ -37,10 +38,13 @@ var remoteSvc = kmsg.N(2, "HTTP", "svc.remote.other")
 type world struct {
 	k     *simkdc.KDC
 	ep    *simkdc.Endpoint
+	epTB  *simkdc.Endpoint // UDP answers response-too-big, TCP answers
+	epRF  *simkdc.Endpoint // UDP refuses, TCP answers
 	now   atomic.Int64
 	rnd   *vh.Rand
 	ktabs map[int32]*keytab.Keytab
-	na    bool // set by a perturbation that found nothing to perturb in this reply (e.g. no addresses were requested)
+	via   string // which endpoint the clients of the current case are configured with ("" = UDP and TCP answer)
+	na    bool   // set by a perturbation that found nothing to perturb in this reply (e.g. no addresses were requested)
 }
 
 func newWorld(id int) (*world, error) {
@@ -59,7 +63,8 @@ func newWorld(id int) (*world, error) {
 		if _, err := w.k.AddPasswordClient(realm, kmsg.N(1, fmt.Sprintf("pw%d", et)), fmt.Sprintf("pässwörd-%d-\U0001D11E", et), nil, 0, et); err != nil {
 			return nil, err
 		}
-		p := w.k.AddService(realm, kmsg.N(1, fmt.Sprintf("kt%d", et)), et)
+		// keytab clients have two name components, so that a reply can carry the same text cut differently
+		p := w.k.AddService(realm, kmsg.N(1, fmt.Sprintf("kt%d", et), "batch"), et)
 		kt := keytab.New()
 		if err := kt.Unmarshal(accept.KeytabV2([]accept.KeytabEntry{{Realm: realm, Name: p.Name, Kvno: 1, Etype: et, Key: p.Keys[0].Key, Timestamp: 1}})); err != nil {
 			return nil, err
@@ -71,6 +76,12 @@ func newWorld(id int) (*world, error) {
 		return nil, err
 	}
 	w.ep = ep
+	if w.epTB, err = simkdc.NewEndpoint(fmt.Sprintf("kdc-w%d-toobig", id), w.k, simkdc.TooBig, simkdc.Answers); err != nil {
+		return nil, err
+	}
+	if w.epRF, err = simkdc.NewEndpoint(fmt.Sprintf("kdc-w%d-udprefused", id), w.k, simkdc.Refuses, simkdc.Answers); err != nil {
+		return nil, err
+	}
 	return w, nil
 }
 
@@ -139,11 +150,21 @@ func catalogue() []pert {
 		add("cname-extra-component", "reject", func(w *world, c cfgKey, r *simkdc.Reply, rnd *vh.Rand) {
 			r.Rep.CName = kmsg.N(1, append(append([]string{}, r.Rep.CName.Parts...), "admin")...)
 		}, nil)
+		add("cname-components-joined-into-one", "reject", func(w *world, c cfgKey, r *simkdc.Reply, rnd *vh.Rand) {
+			if len(r.Rep.CName.Parts) < 2 {
+				w.na = true // a one-component name cannot be cut differently
+				return
+			}
+			r.Rep.CName = kmsg.N(r.Rep.CName.Type, strings.Join(r.Rep.CName.Parts, "/"))
+		}, nil)
 		add("crealm-changed", "reject", func(w *world, c cfgKey, r *simkdc.Reply, rnd *vh.Rand) { r.Rep.CRealm = "EVIL.REALM" }, nil)
 		add("enc-srealm-changed", "reject", func(w *world, c cfgKey, r *simkdc.Reply, rnd *vh.Rand) { r.Enc.SRealm = "EVIL.REALM" }, nil)
 		if ex == "AS" {
 			add("enc-sname-changed", "reject", func(w *world, c cfgKey, r *simkdc.Reply, rnd *vh.Rand) {
 				r.Enc.SName = kmsg.N(2, "krbtgt", "EVIL.REALM")
+			}, nil)
+			add("enc-sname-components-joined-into-one", "reject", func(w *world, c cfgKey, r *simkdc.Reply, rnd *vh.Rand) {
+				r.Enc.SName = kmsg.N(r.Enc.SName.Type, strings.Join(r.Enc.SName.Parts, "/"))
 			}, nil)
 			add("enc-sname-other-service", "reject", func(w *world, c cfgKey, r *simkdc.Reply, rnd *vh.Rand) { r.Enc.SName = svc }, nil)
 			requested := func(w *world, r *simkdc.Reply) bool {
@@ -238,11 +259,21 @@ func confText(addr string, c cfgKey) string {
 }
 
 func (w *world) newClient(c cfgKey) (*client.Client, error) {
-	cfg, err := config.NewFromString(confText(w.ep.Addr(), c))
+	addr := w.ep.Addr()
+	switch w.via {
+	case "tcp-after-udp-too-big":
+		addr = w.epTB.Addr()
+	case "tcp-after-udp-refused":
+		addr = w.epRF.Addr()
+	}
+	cfg, err := config.NewFromString(confText(addr, c))
 	if err != nil {
 		return nil, err
 	}
 	name := fmt.Sprintf("%s%d", c.kind, c.et)
+	if c.kind == "kt" {
+		name += "/batch"
+	}
 	p := w.k.Realms[realm].Principals[name]
 	p.PreAuth = c.policy
 	if c.kind == "pw" {
@@ -327,6 +358,25 @@ func TestProp(t *testing.T) {
 		}
 	}
 
+	// the reply arrives over TCP after the UDP attempt failed: unperturbed replies and every KRB-ERROR code
+	for _, via := range []string{"tcp-after-udp-too-big", "tcp-after-udp-refused"} {
+		for _, ex := range []string{"AS", "TGS"} {
+			for _, c := range []cfgKey{{"kt", 18, "none", true}, {"pw", 17, "info2", true}} {
+				jobs = append(jobs, job{c: c, p: &pert{name: "none-over-" + via, ex: ex, kind: "neutral", apply: func(*world, cfgKey, *simkdc.Reply, *vh.Rand) {}}, byt: -1})
+			}
+			for code := int32(1); code <= 94; code++ {
+				c := cfgKey{"kt", 18, "none", true}
+				if code%2 == 0 {
+					c = cfgKey{"pw", 17, "info2", true}
+				}
+				cd := code
+				if code == 94 {
+					cd = 2000
+				}
+				jobs = append(jobs, job{c: c, p: &pert{name: "krb-error-over-" + via, ex: ex, kind: "error"}, byt: -1, code: cd})
+			}
+		}
+	}
 	// KRB-ERROR in answer to the second, pre-authenticated AS request (the first one was answered PREAUTH_REQUIRED)
 	for code := int32(1); code <= 94; code++ {
 		c := cfgKey{"kt", 18, "info2", true}
@@ -355,6 +405,8 @@ func TestProp(t *testing.T) {
 				return
 			}
 			defer w.ep.Close()
+			defer w.epTB.Close()
+			defer w.epRF.Close()
 			for ji := range ch {
 				j := jobs[ji]
 				ck := fmt.Sprintf("%s/%s/%s/rep%d/byte%d/code%d", j.c, j.p.ex, j.p.name, j.rep, j.byt, j.code)
@@ -377,6 +429,7 @@ func TestProp(t *testing.T) {
 	r.Require("base_accepted_"+exReferral, 70)
 	r.Require("base_accepted_"+exAfterReferral, 70)
 	r.Require("krb_error_after_preauth_code_surfaced", 80)
+	r.Require("krb_error_over_tcp_fallback_code_surfaced", 300)
 	r.Require("rejected_agreed", 1500)
 	r.Require("neutral_accepted", 300)
 	r.Require("krb_error_code_surfaced", 150)
@@ -397,6 +450,10 @@ func runCase(t *testing.T, r *vh.Run, w *world, ck string, c cfgKey, p *pert, by
 		w.k.ResetLogs()
 		w.k.Perturb, w.k.ForceError, w.k.ForceErrorWhen = nil, 0, nil
 		w.na = false
+		w.via = ""
+		if i := strings.Index(p.name, "-over-"); i > 0 {
+			w.via = p.name[i+len("-over-"):]
+		}
 		cl, err := w.newClient(c)
 		if err != nil {
 			r.Inconclusive("client config: " + err.Error())
@@ -540,6 +597,9 @@ func runCase(t *testing.T, r *vh.Run, w *world, ck string, c cfgKey, p *pert, by
 			return
 		}
 		r.Inc("krb_error_code_surfaced")
+		if w.via != "" {
+			r.Inc("krb_error_over_tcp_fallback_code_surfaced")
+		}
 		if p.name == "krb-error-after-preauth" {
 			r.Inc("krb_error_after_preauth_code_surfaced")
 		}
@@ -592,9 +652,14 @@ func lastReplyBytes(w *world, kind string) []byte {
 	return w.k.LastReply(kind)
 }
 
+// carriesCode: the error is the KDC's KRB-ERROR itself, or an error whose text names the code - unless it is classified as a
+// networking failure: "the request could not be sent" is not the KDC's answer reaching the caller, whatever it quotes.
 func carriesCode(err error, code int32) bool {
-	if ke, ok := err.(messages.KRBError); ok && ke.ErrorCode == code {
-		return true
+	if ke, ok := err.(messages.KRBError); ok {
+		return ke.ErrorCode == code
+	}
+	if ke, ok := err.(krberror.Krberror); ok && ke.RootCause == krberror.NetworkingError {
+		return false
 	}
 	s := err.Error()
 	return strings.Contains(s, fmt.Sprintf("(%d) ", code)) || strings.Contains(s, fmt.Sprintf("ErrorCode %d", code))
